@@ -225,7 +225,9 @@ def main(prop, tier):
     if thorough:
         explores += [(5, 2, 4, 0, 10**7), (4, 2, 3, 1, 10**7), (4, 3, 2, 0, 3 * 10**5), (6, 2, 3, 0, 10**6), (7, 2, 6, 0, 5 * 10**5)]
 
+    import apalache_obl
     with cf.ThreadPoolExecutor(max_workers=8) as ex:
+        f_ap = ex.submit(apalache_obl.discharge, chk, bdir, "cursors", thorough)
         f_mc = [ex.submit(run_mc, c) for c in mc]
         f_ex = [ex.submit(run_export, c) for c in exports]
         f_xp = [ex.submit(run_explore, c) for c in explores]
@@ -240,6 +242,7 @@ def main(prop, tier):
         mc_res = [f.result() for f in f_mc]
         ex_res = [f.result() for f in f_ex]
         xp_res = [f.result() for f in f_xp]
+        f_ap.result()
 
     # (1) model results
     states = transitions = 0
